@@ -274,7 +274,10 @@ func (p BitList) At(i int) bool {
 		return false
 	}
 	bit := BitOffset(i)
-	addr := p.off.addOffset(bit.offset())
+	// The list bounds were validated when the pointer was read, and a
+	// bit list can be larger than a struct's data section, so don't use
+	// addOffset (which enforces the struct data offset range).
+	addr := p.off.addSizeUnchecked(Size(bit.offset()))
 	return p.seg.readUint8(addr)&bit.mask() != 0
 }
 
@@ -289,7 +292,7 @@ func (p BitList) Set(i int, v bool) {
 		panic("BitList.Set called on a non-bit list")
 	}
 	bit := BitOffset(i)
-	addr := p.off.addOffset(bit.offset())
+	addr := p.off.addSizeUnchecked(Size(bit.offset()))
 	b := p.seg.slice(addr, 1)
 	if v {
 		b[0] |= bit.mask()
